@@ -135,10 +135,12 @@ def narsese_tokens_surface(kw, v):
             out.append(fnum(x))
         return out + [S(br[1])]
     def stamp(st):
+        # tokens: opening bracket, kind marker, (number), closing bracket -- "stamp ... parts and their numbers"
         if st[0] == 'Eternal': return []
         l, r = kw['sentence.stamp_brackets']
         body = {'Past': 'stamp_past', 'Present': 'stamp_present', 'Future': 'stamp_future', 'Fixed': 'stamp_fixed'}[st[0]]
-        return [S(l) + S(kw['sentence.' + body]) + (S(str(st[1])) if st[0] == 'Fixed' else []) + S(r)]      # one token: the property does not promise spaces inside a stamp
+        toks = [S(l), S(kw['sentence.' + body])] + ([S(str(st[1]))] if st[0] == 'Fixed' else []) + [S(r)]
+        return [t for t in toks if t]
     def sentence(p, term, st, tr):
         out = term_tokens_surface(kw, term) + [S(kw['sentence.punctuation_' + p.lower()])] + stamp(st)
         if tr: out += floats(kw['sentence.truth_brackets'], kw['sentence.truth_separator'], tr)
